@@ -113,7 +113,60 @@ static Op gen_correlated_pattern_op(Rng& r) {
   return op;
 }
 
+// libstdc++'s std::regex is a backtracking matcher: a repeated group (":n*", ":n+", "{..}+", "(..)*") next to another
+// unbounded construct ("*", "(.*)") in the same pattern makes a failing match take exponential time (a generated
+// "/:n*/(.*)/{index.html}?/" against a four-segment path ran for more than two minutes). That is a property of the regex
+// provider (trusted base), not of ada, and it would turn a run into a stalled worker. Such patterns are not generated.
+static bool pattern_text_is_pathological(std::string_view t) {
+  int unbounded = 0, repeated_groups = 0;
+  bool in_name = false;
+  for (size_t i = 0; i < t.size(); i++) {
+    char c = t[i];
+    if (c == '\\') {
+      i++;
+      in_name = false;
+      continue;
+    }
+    if (c == ':') {
+      in_name = true;
+      continue;
+    }
+    bool namech = (c >= 'a' && c <= 'z') || (c >= 'A' && c <= 'Z') || (c >= '0' && c <= '9') || c == '_';
+    if (c == '*' || c == '+') {
+      char prev = i ? t[i - 1] : 0;
+      bool modifier = prev == ')' || prev == '}' || (in_name && i > 0);
+      if (modifier) repeated_groups++;
+      if (c == '*' || modifier) unbounded++;
+      in_name = false;
+      continue;
+    }
+    if (c == '(' && t.substr(i).starts_with("(.*)")) unbounded++;
+    if (c == '(' && t.substr(i).starts_with("(.+)")) unbounded++;
+    if (!namech) in_name = false;
+  }
+  return repeated_groups >= 1 && unbounded >= 2;
+}
+static bool pattern_op_is_pathological(const Op& op) {
+  for (size_t k = 0; k < 9 && k < op.args.size(); k++)
+    if (op.args[k] && pattern_text_is_pathological(*op.args[k])) return true;
+  return false;
+}
+static Op gen_pattern_op_unfiltered(Rng& r, bool with_input);
 static Op gen_pattern_op(Rng& r, bool with_input) {
+  for (int tries = 0; tries < 8; tries++) {
+    Op op = gen_pattern_op_unfiltered(r, with_input);
+    if (!pattern_op_is_pathological(op)) return op;
+  }
+  Op op;
+  op.kind = OP_PATTERN;
+  op.args.assign(18, std::nullopt);
+  op.args[5] = "/books/:id";
+  if (with_input) op.args[9] = "https://example.com/books/7";
+  op.sub = uint8_t((1 << 1) | ((with_input ? 1 : 0) << 2));
+  return op;
+}
+
+static Op gen_pattern_op_unfiltered(Rng& r, bool with_input) {
   auto& c = corpus();
   Op op;
   if (with_input && r.chance(1, 4)) return gen_correlated_pattern_op(r);
